@@ -228,7 +228,8 @@ def rule(ctx, crate, rule_id, paths, with_returns=True, panicking_only=False):
         sinks = byte_sinks(b, param_byte)
         if panicking_only:
             # a character count used on as_bytes() reads the wrong byte but stays in bounds (count <= len): not a panic
-            sinks = [x for x in sinks if not x[1].startswith("index into the bytes")]
+            sinks = [x for x in sinks if not x[1].startswith("index into the bytes") and not any(
+                k in x[1] for k in ("::get on", "::get_mut on", "is_char_boundary on"))]      # these return None / false
         if with_returns and p in BYTE_RETURNS:
             for bi, e in returns(b):
                 sinks.append((bi, "return value (%s)" % BYTE_RETURNS[p][:60], e))
